@@ -19,7 +19,10 @@ NVals(n) ==
     [] n = "bigint" -> <<IV(0, <<2>>), IV(1, <<1>>), IV(0, <<255, 255, 255, 255, 255, 255, 255, 127>>), IV(1, <<0, 0, 0, 0, 0, 0, 0, 128>>), IV(0, <<0, 0, 0, 0, 1>>)>>
     [] n = "counter" -> <<IV(0, <<7>>), IV(1, <<0, 1>>)>>
     [] n = "varint" -> <<IV(0, << >>), IV(0, <<127>>), IV(0, <<128>>), IV(1, <<128>>), IV(1, <<129>>), IV(0, <<0, 0, 0, 0, 0, 0, 0, 0, 1>>),
-                         IV(1, <<1, 0, 0, 0, 0, 0, 0, 0, 1>>), IV(1, <<0, 128>>), IV(0, <<255, 255>>)>>
+                         IV(1, <<1, 0, 0, 0, 0, 0, 0, 0, 1>>), IV(1, <<0, 128>>), IV(0, <<255, 255>>),
+                         \* magnitudes that fill whole 64-bit digits: 2^63, 2^64 - 1, -(2^63) - 1, -(2^64 - 1), 2^127, 2^128 - 1
+                         IV(0, <<0, 0, 0, 0, 0, 0, 0, 128>>), IV(0, FF(8)), IV(1, <<1, 0, 0, 0, 0, 0, 0, 128>>), IV(1, FF(8)),
+                         IV(0, <<0, 0, 0, 0, 0, 0, 0, 0, 0, 0, 0, 0, 0, 0, 0, 128>>), IV(0, FF(16)), IV(1, <<0, 0, 0, 0, 0, 0, 0, 128>>)>>
     [] n = "date" -> <<IV(0, << >>), IV(0, <<0, 0, 0, 128>>), IV(0, <<255, 255, 255, 255>>), IV(0, <<1>>)>>
     [] n = "time" -> <<IV(0, << >>), IV(0, <<255, 255, 78, 145, 148, 78>>), IV(0, <<1>>)>>       \* 86399999999999
     [] n = "timestamp" -> <<IV(0, << >>), IV(1, <<1>>), IV(0, <<255, 255, 255, 255, 255, 255, 255, 127>>), IV(1, <<0, 0, 0, 0, 0, 0, 0, 128>>), IV(0, <<0, 16, 165, 212, 232>>)>>
@@ -36,7 +39,8 @@ NVals(n) ==
                        Raw(<<0, 0, 0, 0, 0, 0, 0, 0, 0, 0, 255, 255, 192, 0, 2, 1>>), Raw(<<0, 0, 0, 0, 0, 0, 0, 0, 0, 0, 0, 0, 1, 2, 3, 4>>),
                        Raw(<<0, 0, 0, 0>>), Raw([i \in 1..16 |-> 0])>>
     [] n = "decimal" -> <<[k |-> "dec", scale |-> I(0, << >>), int |-> I(0, << >>)], [k |-> "dec", scale |-> I(1, <<3>>), int |-> I(1, <<129>>)],
-                          [k |-> "dec", scale |-> I(0, <<255, 255, 255, 127>>), int |-> I(0, <<0, 0, 0, 0, 0, 0, 0, 0, 0, 1>>)]>>
+                          [k |-> "dec", scale |-> I(0, <<255, 255, 255, 127>>), int |-> I(0, <<0, 0, 0, 0, 0, 0, 0, 0, 0, 1>>)],
+                          [k |-> "dec", scale |-> I(0, <<2>>), int |-> I(0, FF(8))], [k |-> "dec", scale |-> I(1, <<0, 0, 0, 128>>), int |-> I(1, <<1, 0, 0, 0, 0, 0, 0, 128>>)]>>
     [] n = "duration" -> <<[k |-> "dur", months |-> I(0, << >>), days |-> I(0, << >>), nanos |-> I(0, << >>)],
                            [k |-> "dur", months |-> I(0, <<1>>), days |-> I(1, <<2>>), nanos |-> I(0, <<0, 0, 1>>)],
                            [k |-> "dur", months |-> I(0, <<255, 255, 255, 127>>), days |-> I(1, <<0, 0, 0, 128>>), nanos |-> I(1, <<0, 0, 0, 0, 0, 0, 0, 128>>)],
